@@ -179,10 +179,10 @@ func (ls *listenServer) route(r *core.Msg, slot int32) (string, bool) {
 			liveSlaves = append(liveSlaves, v.Addr)
 		}
 
-		if len(liveSlaves) == 0 {
-			continue
-		}
+	}
 
+	// pick among all live slaves, once every one of them has been looked at
+	if len(liveSlaves) > 0 {
 		return liveSlaves[rand.Intn(len(liveSlaves))], true
 	}
 
